@@ -287,7 +287,13 @@ impl Property for C15 {
                         Who::Nobody => None,
                     };
                     let next_owner = if owner == w.alt[0] { w.alt[1].clone() } else { w.alt[0].clone() };
-                    let margs: SVec<Val> = SVec::from_array(env, [if *target % 6 < 5 { prod_migration_data(env, *target % 6) } else { ().into_val(env) }]);
+                    // (the derive-macro probe's migration hands the contract to whoever its data names: somebody who is not the
+                    // owner names itself - the migration must not run before the caller is known to be the owner)
+                    let probe_data: Val = match (&signer, a.kind) {
+                        (Some(s), Kind::Migrate) if *s != owner => Some(s.clone()).into_val(env),
+                        _ => ().into_val(env),
+                    };
+                    let margs: SVec<Val> = SVec::from_array(env, [if *target % 6 < 5 { prod_migration_data(env, *target % 6) } else { probe_data }]);
                     let uargs: SVec<Val> = SVec::from_array(env, [hash.clone().into_val(env)]);
                     let targs: SVec<Val> = SVec::from_array(env, [next_owner.clone().into_val(env)]);
                     let entries = match &signer {
